@@ -19,5 +19,5 @@ Init == /\ x = 0
         /\ \A i \in DOMAIN Catalog : \A k \in DOMAIN Catalog[i].ops : PrintT(ToJson(PinnedJson(i, k)))
 Next == UNCHANGED x
 \* the sanity conditions every catalog entry must satisfy (checked in the same run)
-CatalogSane == \A i \in DOMAIN Catalog : EntryOK(i)
+CatalogSane == (\A i \in DOMAIN Catalog : EntryOK(i)) /\ NegativesRejected
 =============================================================================
